@@ -28,6 +28,8 @@ import (
 	"net/http"
 	"net/http/httputil"
 	"strings"
+
+	"github.com/google/martian/v3/log"
 )
 
 // MessageView is a static view of an HTTP request or response.
@@ -115,19 +117,31 @@ func (mv *MessageView) SnapshotRequest(req *http.Request) error {
 
 	data, err := ioutil.ReadAll(req.Body)
 	if err != nil {
-		return err
+		// The body ended with an error (the sender went away inside it). The snapshot holds
+		// what was read; the message gets those bytes back, followed by the same error, so
+		// that it is sent on exactly as it would have been without the snapshot.
+		log.Errorf("messageview: request body ended after %d bytes: %v", len(data), err)
+		req.Body = &brokenBody{r: bytes.NewReader(data), err: err, c: req.Body}
+	} else {
+		req.Body.Close()
 	}
-	req.Body.Close()
 
 	if mv.chunked {
 		cw := httputil.NewChunkedWriter(buf)
 		cw.Write(data)
-		cw.Close()
+		if err == nil {
+			cw.Close()
+		}
 	} else {
 		buf.Write(data)
 	}
 
 	mv.traileroffset = int64(buf.Len())
+
+	if err != nil {
+		mv.message = buf.Bytes()
+		return nil
+	}
 
 	if len(data) == 0 {
 		// Keep an empty body recognisable as such: the transport frames a request with a
@@ -191,19 +205,31 @@ func (mv *MessageView) SnapshotResponse(res *http.Response) error {
 
 	data, err := ioutil.ReadAll(res.Body)
 	if err != nil {
-		return err
+		// The body ended with an error (the origin closed inside it). The snapshot holds
+		// what was read; the message gets those bytes back, followed by the same error, so
+		// that it is sent on exactly as it would have been without the snapshot.
+		log.Errorf("messageview: response body ended after %d bytes: %v", len(data), err)
+		res.Body = &brokenBody{r: bytes.NewReader(data), err: err, c: res.Body}
+	} else {
+		res.Body.Close()
 	}
-	res.Body.Close()
 
 	if mv.chunked {
 		cw := httputil.NewChunkedWriter(buf)
 		cw.Write(data)
-		cw.Close()
+		if err == nil {
+			cw.Close()
+		}
 	} else {
 		buf.Write(data)
 	}
 
 	mv.traileroffset = int64(buf.Len())
+
+	if err != nil {
+		mv.message = buf.Bytes()
+		return nil
+	}
 
 	res.Body = ioutil.NopCloser(bytes.NewReader(data))
 
@@ -306,4 +332,23 @@ func (mv *MessageView) matchContentType(mct string) bool {
 	}
 
 	return false
+}
+
+// brokenBody replays what was read of a body that ended with an error, and then
+// returns that error.
+type brokenBody struct {
+	r   *bytes.Reader
+	err error
+	c   io.Closer
+}
+
+func (b *brokenBody) Read(p []byte) (int, error) {
+	if b.r.Len() == 0 {
+		return 0, b.err
+	}
+	return b.r.Read(p)
+}
+
+func (b *brokenBody) Close() error {
+	return b.c.Close()
 }
